@@ -32,7 +32,7 @@ var c18 = core.Register(&core.Prop{
 				out = append(out, "coverage floor: "+b+" never checked")
 			}
 		}
-		for _, k := range []string{"ties", "negative_ties", "law:sqrt-square", "law:exp-ln", "law:ln-exp", "law:log-pow10", "tofloat_nan_cases", "through_locals", "bitop_exponent_spellings"} {
+		for _, k := range []string{"ties", "negative_ties", "law:sqrt-square", "law:exp-ln", "law:ln-exp", "law:log-pow10", "tofloat_nan_cases", "through_locals", "bitop_exponent_spellings", "tofloat_long_texts", "maxmin_wide_neighbours"} {
 			if c[k] == 0 {
 				out = append(out, "coverage floor: no "+k)
 			}
@@ -515,6 +515,13 @@ func arg15(r *rand.Rand) string {
 	return spell(r, r.Intn(2) == 0, dig, exp)
 }
 
+func spellExp(dig string, e int) string {
+	if e == 0 {
+		return dig
+	}
+	return dig + "e" + strconv.Itoa(e)
+}
+
 func init() { c18.Run = runC18 }
 
 func runC18(w *core.W) {
@@ -557,6 +564,29 @@ func runC18(w *core.W) {
 		}
 		run(&NumFnCase{Fn: "max", Args: list})
 		run(&NumFnCase{Fn: "min", Args: list})
+		if i%4 == 0 {
+			// neighbours in the last of 16-34 digits, and magnitudes far outside the float64 range: max/min pick by value
+			base := digits(r, 16+r.Intn(19))
+			for base[0] == '0' {
+				base = digits(r, len(base))
+			}
+			e := []int{0, -3, -len(base) + 1, 5, 400, -400, 3000, -3000}[r.Intn(8)]
+			bump := func(d string, by int) string {
+				b := []byte(d)
+				b[len(b)-1] = byte('0' + (int(b[len(b)-1]-'0')+by)%10)
+				return string(b)
+			}
+			wide := []string{spellExp(base, e), spellExp(bump(base, 1), e), spellExp(bump(base, 2), e)}
+			r.Shuffle(len(wide), func(a, b int) { wide[a], wide[b] = wide[b], wide[a] })
+			if r.Intn(2) == 0 {
+				for k := range wide {
+					wide[k] = "-" + wide[k]
+				}
+			}
+			run(&NumFnCase{Fn: "max", Args: wide})
+			run(&NumFnCase{Fn: "min", Args: wide})
+			w.Count("maxmin_wide_neighbours")
+		}
 		// transcendental: positive arguments of moderate size are the common case
 		pos := strings.TrimPrefix(a, "-")
 		run(&NumFnCase{Fn: "sqrt", Args: []string{pos}})
@@ -615,5 +645,15 @@ func runC18(w *core.W) {
 		s := strs[r.Intn(len(strs))]
 		run(&NumFnCase{Fn: "toFloat", Args: []string{s}, Str: true})
 		run(&NumFnCase{Fn: "finite", Args: []string{s}, Str: true})
+		// numeric texts with more digits than a float64 holds: the number written, exactly
+		long := digits(r, 16+r.Intn(19))
+		if k := r.Intn(len(long)); k > 0 && r.Intn(2) == 0 {
+			long = long[:k] + "." + long[k:]
+		}
+		if r.Intn(3) == 0 {
+			long = "-" + long
+		}
+		run(&NumFnCase{Fn: "toFloat", Args: []string{long}, Str: true})
+		w.Count("tofloat_long_texts")
 	}
 }
